@@ -132,7 +132,7 @@ def check(case, ctx):
 
     if what == 'sort':
         label = "a.sort_axis(axis=%r)" % (axis,) + base
-        res, exc = ctx.call(label, (lambda: a.sort_axis(axis=axis)) if axis != 0 else (lambda: a.sort_axis()), operands=(a,), meta='carry')
+        res, exc = ctx.call(label, (lambda: a.sort_axis(axis=axis)) if axis != 0 else (lambda: a.sort_axis()), operands=(a,), meta='carry', ambient=True)
         order = sorted(range(n), key=lambda i: lab[i])
         common.expect(ctx, ID, "sort", label, res, exc, exp=moved(order))
     elif what == 'sortkey':
@@ -144,7 +144,7 @@ def check(case, ctx):
             key = {gen.np_labels([l], sp["kinds"][k])[0]: r for l, r in rank.items()}
             key.update(rank)
         label = "a.sort_axis(axis=%r, key=%s %s ranks %r)" % (axis, case["keyform"], rt, case["rank"]) + base
-        res, exc = ctx.call(label, lambda: a.sort_axis(axis=axis, key=key), operands=(a,), meta='carry')
+        res, exc = ctx.call(label, lambda: a.sort_axis(axis=axis, key=key), operands=(a,), meta='carry', ambient=True)
         order = sorted(range(n), key=lambda i: case["rank"][i])
         common.expect(ctx, ID, "sortkey", label, res, exc, exp=moved(order))
     elif what == 'take_axis':
@@ -162,7 +162,7 @@ def check(case, ctx):
         mk = case["mask"]
         arg = mk.tolist() if case["aslist"] else mk
         label = "a.compress_axis(%s, axis=%r)" % (mk.tolist(), axis) + base
-        res, exc = ctx.call(label, lambda: a.compress_axis(arg, axis=axis), operands=(a,) + common.array_args(arg), meta='carry')
+        res, exc = ctx.call(label, lambda: a.compress_axis(arg, axis=axis), operands=(a,) + common.array_args(arg), meta='carry', ambient=True)
         common.expect(ctx, ID, "compress", label, res, exc, exp=moved([i for i in range(n) if mk[i]]))
     elif what == 'dropna':
         mv = case["minvalid"]
@@ -176,13 +176,13 @@ def check(case, ctx):
         else:
             label = "a.dropna(axis=%r)" % (axis,) + base
             fn = (lambda: a.dropna(axis=axis)) if (axis != 0 or nd > 1) else (lambda: a.dropna())
-        res, exc = ctx.call(label, fn, operands=(a,), meta='carry')
+        res, exc = ctx.call(label, fn, operands=(a,), meta='carry', ambient=True)
         common.expect(ctx, ID, "dropna", label, res, exc, exp=moved(keep), must_be_da=True)
     elif what == 'fillna':
         val, inplace = case["val"], case["inplace"]
         label = "a.fillna(%r, inplace=%r)" % (val, inplace) + base
         before_axes = tuple(monitors.snap_axis(ax) for ax in a.axes)
-        res, exc = ctx.call(label, lambda: a.fillna(val, inplace=inplace), operands=(a,), mutates=(a,) if inplace else (), meta=None if inplace else 'carry')
+        res, exc = ctx.call(label, lambda: a.fillna(val, inplace=inplace), operands=(a,), mutates=(a,) if inplace else (), meta=None if inplace else 'carry', ambient=True)
         e = v.copy()
         if v.dtype.kind == 'f':
             e[np.isnan(v)] = val
@@ -217,7 +217,7 @@ def check(case, ctx):
                 value = value[::-1]          # the mask first, the value after
             mk = case["mask"] | (v == case["value"])
         label = "a.setna(%s %s, inplace=%r)" % (form, codec.short(case.get("value", '<mask>'), 60), inplace) + base
-        res, exc = ctx.call(label, lambda: a.setna(value, inplace=inplace), operands=(a,) + common.array_args(value), mutates=(a,) if inplace else (), meta=None if inplace else 'carry')
+        res, exc = ctx.call(label, lambda: a.setna(value, inplace=inplace), operands=(a,) + common.array_args(value), mutates=(a,) if inplace else (), meta=None if inplace else 'carry', ambient=True)
         e = v.astype(float).copy()
         e[mk] = np.nan
         tgt = a if inplace else res
